@@ -36,10 +36,17 @@ S8 = 10 ** 8
 # one-byte characters that a "tidying" reader would drop (C string padding, line ends, other controls) and multi-byte
 # characters that str.strip() / normalisation / BOM handling would touch: a SIGPROC string is a counted block of bytes
 CTRL = ["\x00", "\t", "\n", "\r", "\x0b", "\x0c", "\x1f", "\x7f"]
-ODD_MB = ["\u00a0", "\u2028", "\ufeff", "e\u0301"]          # no-break space, line separator, BOM, e + combining acute
+ODD_MB = ["\u00a0", "\u2028", "\ufeff", "e\u0301",         # no-break space, line separator, BOM, e + combining acute
+          # first and last code point of every UTF-8 length (around the surrogate gap): the model's strict decoder accepts them
+          "\u0080", "\u07ff", "\u0800", "\ud7ff", "\ue000", "\uffff", "\U00010000", "\U0010ffff"]
+# byte strings that are NOT well-formed UTF-8 (overlong, surrogate, beyond U+10FFFF, stray / missing continuation, Latin-1):
+# outside the property (R.assume), but the model decodes strictly as _read_string does, so they go to the correspondence
+BAD_UTF8 = [b"PSR\xe9", b"\xc0\x80", b"\xc1\xbf", b"\xe0\x9f\xbf", b"\xed\xa0\x80", b"\xed\xbf\xbf", b"\xf0\x8f\xbf\xbf", b"\xf4\x90\x80\x80",
+            b"\xf5\x80\x80\x80", b"\x80", b"ab\xbf", b"\xe4\xb8", b"\xe4\xb8A", b"\xf0\x9f\x9b", b"\xff", b"J0534\xc2"]
 # a character of the same UTF-8 length (for edits that keep both the character count and the byte count)
 SAME_LEN = {"é": "ü", "ü": "ß", "ß": "é", "Ω": "°", "°": "Ω", "\u00a0": "é", "\u0301": "ü", "–": "中", "中": "–", "\u2028": "中",
-            "\ufeff": "–", "\U0001f6f0": "\U0001f680"}
+            "\ufeff": "–", "\U0001f6f0": "\U0001f680", "\u0080": "é", "\u07ff": "é", "\u0800": "中", "\ud7ff": "中", "\ue000": "中",
+            "\uffff": "中", "\U00010000": "\U0001f680", "\U0010ffff": "\U0001f680"}
 
 
 # ------------------------------------------------------------------------------------------------------------------
@@ -360,12 +367,12 @@ def run(R: vlib.Run):
                   "tools/py2coq/gen_c05.py: reading of the tables, of encode_key's length prefixes, of parse_radec's formatting and of the "
                   "frame assignments from the Python ast; pins the text of _read_string/parse_header/encode_header/edit_header",
                   "hand model Model/C05_HeaderCodec.v, Model/C05_RaDec.v tied to the implementation by the correspondence run",
-                  "struct's encoding of 'I','b','d' on a little-endian machine; str.encode/bytes.decode inverse on valid UTF-8",
+                  "struct's encoding of 'I','b','d' on a little-endian machine; str.encode/bytes.decode inverse on valid UTF-8 (which byte strings are valid is modelled: Model valid_utf8, tied to bytes.decode by the correspondence)",
                   "astropy Angle.to_string / SkyCoord string parsing (the sexagesimal fields are the model's input)",
                   "correspondence harness and oracle tools/harness/props/c05.py"]
     R.assume += ["binary64 evaluation of parse_radec's divmods differs from the exact-decimal model by < 1e-6 arcsec (checked on every case)",
                  "doubles are opaque 8-byte blocks in the model; int -> double conversion by struct.pack('d', int) is not modelled",
-                 "edit_header pads/truncates source_name by characters: modelled on bytes, i.e. for ASCII names",
+                 "edit_header pads/truncates source_name by characters: the model counts a character per byte that is not a UTF-8 continuation byte (exact for the valid UTF-8 a Python str encodes to)",
                  "Header -> file: the sampling time satisfies 1e-9 <= tsamp < 1e9 seconds (Header.to_sigproc evaluates every property of "
                  "the Header, and Header.obs_time asks astropy for ceil(|log10 tsamp|) <= 9 decimals: prep_outfile raises ValueError "
                  "outside that range, and for tsamp <= 0) and tstart is an MJD astropy can print as a calendar date",
@@ -472,12 +479,27 @@ def run(R: vlib.Run):
             if not all(isinstance(v, (int, float, str)) for _, v in items):
                 continue
             out = f"(Some ({mheader(items)}, {d['hdrlen']}))"
-        except UnicodeDecodeError:
-            continue        # invalid UTF-8: outside the model (bytes.decode is trusted only on valid input)
-        except Exception:  # noqa: BLE001
+        except Exception:  # noqa: BLE001  (UnicodeDecodeError included: the model's _read_string decodes strictly)
             out = "None"
         R.case(("Am", bytes(b)), nontrivial=True, regime="malformed_" + kind)
         corr.append((f"CParse {vlib.zlist(b)} {out}", {"kind": "parse-malformed", "how": kind, "bytes": bytes(b).hex()[:400]}))
+    # strings that are not well-formed UTF-8, as a string value and as a key: model and implementation must agree (both refuse)
+    for bi, bad in enumerate(BAD_UTF8):
+        ents, hb, data = rng.choice(files)
+        mark = "@@" + str(bi) + "@@"
+        if bi % 4 == 3:
+            b = fmt_header([e for e in ents if KEYS[e[0]] != "str"]).replace(fmt_string(b"nbits"), fmt_string(b"nbi" + bad)) + data
+        else:
+            sk = "source_name" if bi % 2 == 0 else "rawdatafile"
+            b = fmt_header([e for e in ents if e[0] != sk] + [(sk, mark)]).replace(fmt_string(mark.encode()), fmt_string(bad)) + data
+        write(b)
+        try:
+            d = sigproc.parse_header(path)
+            out = f"(Some ({mheader(table_items(d))}, {d['hdrlen']}))"
+        except Exception:  # noqa: BLE001
+            out = "None"
+        R.case(("Au", b), nontrivial=True, regime="malformed_utf8")
+        corr.append((f"CParse {vlib.zlist(b)} {out}", {"kind": "parse-malformed", "how": "utf8", "string": bad.hex(), "bytes": b.hex()[:400]}))
 
     # encode_header on dictionaries with ill-typed / out-of-range values (model None <-> implementation raises)
     for i in range(40 if quick else 300):
@@ -801,8 +823,8 @@ def run(R: vlib.Run):
                         ok = False
                     if not ok:
                         fail(cls or "edit-ok-value", "edit_header returned but the stored value is not the requested one", case)
-            modelled = not (KEYS.get(k) == "d" and isinstance(v, int) and not isinstance(v, bool)) \
-                and not (k == "source_name" and isinstance(v, str) and not (is_ascii(v) and is_ascii(dict(ents).get("source_name", ""))))
+            # (source names with multi-byte characters included: the model pads / truncates by characters as Python does)
+            modelled = not (KEYS.get(k) == "d" and isinstance(v, int) and not isinstance(v, bool))
             if modelled and len(corr) < 4000 and (nC % (1 if quick else 4) == 0):
                 corr.append((f"CEdit {vlib.zlist(before)} {mkey(k)} {mval(v)} {mobytes(None if raised is not None else after)}", {"kind": "edit", **case}))
 
